@@ -10,7 +10,8 @@ import ast
 import os
 import sys
 from dataclasses import dataclass, field
-from typing import Dict, Iterable, Iterator, List, Optional, Tuple
+from typing import Dict, Iterable, Iterator, List, Optional, Set, Tuple
+import json
 
 
 class AnalysisError(Exception):
@@ -110,10 +111,88 @@ class _SuppressAsTry(ast.NodeTransformer):
         return node
 
 
+def is_pinnable(name: str) -> bool:
+    """a private function in the sense of the anchor table: `_lower...` (not dunder, not a `_For`-style handler found through getattr)"""
+    return len(name) > 2 and name[0] == "_" and name[1] != "_" and name[1].islower()
+
+
+def function_shape(fn: ast.AST) -> Set[str]:
+    """a bag of features of a function that survives a rename of the function (and of other private helpers): parameter names, the
+    names it calls, the attributes it reads, its constants"""
+    out: Set[str] = set()
+    a = fn.args
+    for p_ in a.posonlyargs + a.args + a.kwonlyargs:
+        if p_.arg not in ("self", "cls"):
+            out.add("p:" + p_.arg)
+    for x in ast.walk(fn):
+        if isinstance(x, ast.Call):
+            n_ = x.func.attr if isinstance(x.func, ast.Attribute) else (x.func.id if isinstance(x.func, ast.Name) else None)
+            if n_ and not is_pinnable(n_):
+                out.add("c:" + n_)
+        elif isinstance(x, ast.Attribute) and not is_pinnable(x.attr):
+            out.add("a:" + x.attr)
+        elif isinstance(x, ast.Constant) and isinstance(x.value, (str, int)) and not isinstance(x.value, bool):
+            out.add("k:" + repr(x.value)[:40])
+        elif isinstance(x, (ast.Return, ast.Raise, ast.For, ast.While, ast.If, ast.Try, ast.With, ast.Yield)):
+            out.add("s:" + type(x).__name__)
+    return out
+
+
+def class_shape(cls: ast.ClassDef) -> Set[str]:
+    """features of a class that survive its renaming: its methods, its bases, the attributes it binds on self"""
+    out: Set[str] = set()
+    for b in cls.bases:
+        out.add("b:" + (b.attr if isinstance(b, ast.Attribute) else getattr(b, "id", "?")))
+    for m in cls.body:
+        if isinstance(m, (ast.FunctionDef, ast.AsyncFunctionDef)):
+            out.add("m:" + m.name)
+            for x in ast.walk(m):
+                if isinstance(x, ast.Attribute) and isinstance(x.ctx, ast.Store) and isinstance(x.value, ast.Name) and x.value.id == "self":
+                    out.add("s:" + x.attr)
+                elif isinstance(x, ast.Call):
+                    n_ = x.func.attr if isinstance(x.func, ast.Attribute) else (x.func.id if isinstance(x.func, ast.Name) else None)
+                    if n_ and not n_.startswith("_"):
+                        out.add("c:" + n_)
+                elif isinstance(x, ast.Constant) and isinstance(x.value, str) and 0 < len(x.value) < 30:
+                    out.add("k:" + x.value)
+        elif isinstance(m, ast.Assign):
+            for t in m.targets:
+                if isinstance(t, ast.Name):
+                    out.add("v:" + t.id)
+    return out
+
+
+def match_renamed(pinned: Dict[str, List[str]], present: Dict[str, Set[str]], min_features: int) -> Dict[str, str]:
+    """new name -> pinned name, for the pinned names that are missing among `present` (name -> shape of what is there now and is NOT
+    pinned).  Confident pairs first (Jaccard >= 0.6, at least `min_features` features, the best rival of either side 0.2 behind); when
+    exactly one missing name and one unknown name are left over, they are paired if they share half their features."""
+    missing = {o: set(f) for o, f in pinned.items() if o not in present}
+    pairs = sorted(((len(w & sh) / max(1, len(w | sh)), o, n) for o, w in missing.items() for n, sh in present.items()), reverse=True)
+    out: Dict[str, str] = {}
+    used_o: Set[str] = set()
+    used_n: Set[str] = set()
+    for sc, o, n in pairs:
+        if o in used_o or n in used_n or sc < 0.6 or len(missing[o]) < min_features:
+            continue
+        rival = max([s2 for s2, o2, n2 in pairs if (o2 == o) != (n2 == n) and o2 not in used_o and n2 not in used_n] + [0.0])
+        if sc - rival < 0.2:
+            continue
+        out[n] = o
+        used_o.add(o)
+        used_n.add(n)
+    rest_o = [o for o in missing if o not in used_o]
+    rest_n = [n for n in present if n not in used_n]
+    if len(rest_o) == 1 and len(rest_n) == 1:
+        w, sh = missing[rest_o[0]], present[rest_n[0]]
+        if len(w) >= 2 and len(w & sh) / max(1, len(w | sh)) >= 0.5:
+            out[rest_n[0]] = rest_o[0]
+    return out
+
+
 class Index:
     """Parsed working tree + symbol tables."""
 
-    def __init__(self, root: Optional[str] = None, package: str = "rope"):
+    def __init__(self, root: Optional[str] = None, package: str = "rope", canonicalise: bool = True):
         self.root = root or repo_root()
         self.package = package
         self.units: Dict[str, Unit] = {}
@@ -123,7 +202,10 @@ class Index:
         self.module_assigns: Dict[str, Dict[str, ast.expr]] = {}
         self._mro_cache: Dict[str, List[str]] = {}
         self._subclasses: Dict[str, List[str]] = {}
+        self.renamed_anchors: Dict[str, str] = {}  # "<owner>.<pinned name>" -> the name found in the tree
         self._load()
+        if canonicalise:
+            self._canonicalise_renamed_anchors()
         self._index()
 
     # ---- loading
@@ -152,6 +234,75 @@ class Index:
                 tree = _SuppressAsTry().visit(tree)
                 ast.fix_missing_locations(tree)
                 self.units[modname] = Unit(modname, path, rel, src, tree, is_pkg)
+
+    # ---- private functions that were renamed
+    def _canonicalise_renamed_anchors(self) -> None:
+        """The rules name the private functions they read.  Renaming a private helper is a harmless edit, and a common one: so, before the
+        tables are built, a private function of the pinned tree (sa/anchors.json: owner, name, shape) that is MISSING from its owner is
+        looked for among the owner's private functions that the table does not know; when exactly one of them has the pinned shape
+        (Jaccard similarity of the feature bags >= 0.6, the runner-up at least 0.2 behind) the tree is alpha-renamed IN MEMORY -- the
+        definition and every attribute / name that spells the new name get the pinned name back.  A consistent renaming changes
+        nothing the rules decide; what was resolved is kept in `renamed_anchors` and written into the evidence."""
+        path = os.path.join(os.path.dirname(os.path.abspath(__file__)), "anchors.json")
+        if not os.path.exists(path):
+            return
+        with open(path) as fh:
+            pinned = json.load(fh)
+        # private classes first (the owners of the methods below are named by them)
+        cback: Dict[str, str] = {}
+        for modname, names in pinned.pop("<classes>", {}).items():
+            u = self.units.get(modname)
+            if u is None:
+                continue
+            have_c = {st.name: st for st in u.tree.body if isinstance(st, ast.ClassDef)}
+            if all(n in have_c for n in names):
+                continue
+            unknown = {n: class_shape(d) for n, d in have_c.items() if n.startswith("_") and n not in names}
+            for new, old in match_renamed({n: f for n, f in names.items() if n not in have_c}, unknown, 3).items():
+                cback[new] = old
+                self.renamed_anchors[f"{modname}.{old}"] = new
+        if cback:
+            for u in self.units.values():
+                for x in ast.walk(u.tree):
+                    if isinstance(x, ast.ClassDef) and x.name in cback:
+                        x.name = cback[x.name]
+                    elif isinstance(x, ast.Attribute) and x.attr in cback:
+                        x.attr = cback[x.attr]
+                    elif isinstance(x, ast.Name) and x.id in cback:
+                        x.id = cback[x.id]
+        # owner -> name -> FunctionDef
+        defs: Dict[str, Dict[str, ast.AST]] = {}
+        for u in self.units.values():
+            for st in u.tree.body:
+                if isinstance(st, (ast.FunctionDef, ast.AsyncFunctionDef)):
+                    defs.setdefault(u.modname, {})[st.name] = st
+                elif isinstance(st, ast.ClassDef):
+                    for m in st.body:
+                        if isinstance(m, (ast.FunctionDef, ast.AsyncFunctionDef)):
+                            defs.setdefault(f"{u.modname}.{st.name}", {})[m.name] = m
+        back: Dict[str, str] = {}  # new name -> pinned name
+        for owner, names in pinned.items():
+            have = defs.get(owner)
+            if have is None:
+                continue
+            if all(n in have for n in names):
+                continue
+            unknown = {n: function_shape(d) for n, d in have.items() if is_pinnable(n) and n not in names}
+            for new, old in match_renamed({n: f for n, f in names.items() if n not in have}, unknown, 4).items():
+                if new in back and back[new] != old:
+                    continue
+                back[new] = old
+                self.renamed_anchors[f"{owner}.{old}"] = new
+        if not back:
+            return
+        for u in self.units.values():
+            for x in ast.walk(u.tree):
+                if isinstance(x, (ast.FunctionDef, ast.AsyncFunctionDef)) and x.name in back:
+                    x.name = back[x.name]
+                elif isinstance(x, ast.Attribute) and x.attr in back:
+                    x.attr = back[x.attr]
+                elif isinstance(x, ast.Name) and x.id in back:
+                    x.id = back[x.id]
 
     # ---- indexing
     def _index(self) -> None:
